@@ -233,6 +233,25 @@ def prop(spec, rec):
         for lin in (False, True):
             net.is_feasible(np.asarray(S, dtype=float).reshape(-1, 1), linear=lin, violation_tolerance=5.0, relative_tolerance=0.25)
         labels.add("lenient_query_first")
+    if spec.get("reenter"):
+        # the operator re-enters one constraint of the site after the model has been queried: the
+        # same expression with the same limit (or, for a Caltech pod, a derated one) through
+        # update_constraint - the row moves to the end of the table, nothing else changes
+        from acnportal.acnsim import Current
+
+        feas(S)
+        names = list(net.constraint_index)
+        nm = names[spec["reenter"]["index"] % len(names)]
+        row = net.constraints_as_df().loc[nm]
+        k = names.index(nm)
+        factor = spec["reenter"]["factor"] if nm in topo["pods"] else 1.0
+        net.update_constraint(nm, Current({sid: float(v) for sid, v in row.items() if v != 0}), float(net.magnitudes[k]) * factor)
+        if factor != 1.0:
+            topo = dict(topo, pods=dict(topo["pods"]))
+            topo["pods"][nm] = (topo["pods"][nm][0], topo["pods"][nm][1] * factor)
+            labels.add("pod_derated_after_a_query")
+        lim_before = np.array(net.magnitudes, dtype=float)
+        labels.add("constraint_re_entered_after_a_query")
     worst = 0.0
     # scale to the frontier
     if not feas(S):
@@ -292,6 +311,15 @@ def prop(spec, rec):
         if bool(net.is_feasible(M, linear=linear)):
             worst = max(worst, judge(spec, topo, ids, tail, "last %d of %d periods" % (spec["long_tail"], T)))
         labels.add("horizon_over_4096_periods")
+    # a schedule that creeps upwards by a few millionths per period from the frontier schedule, for
+    # tens of thousands of periods: its last columns overload the site by 10 % or more
+    if spec.get("creep"):
+        T = spec["creep"]
+        M = np.minimum(np.outer(S, 1.0 + 8e-6 * np.arange(T)), 32.0)
+        if S.any() and bool(net.is_feasible(M, linear=linear)):
+            for k in (T - 1, T // 2, T // 4):
+                worst = max(worst, judge(spec, topo, ids, M[:, k], "period %d of a schedule creeping upwards by 8e-6 per period" % k))
+        labels.add("slowly_creeping_schedule")
     # asking does not change what is being asked about
     lim_after = np.array(net.magnitudes, dtype=float)
     require(np.array_equal(lim_before, lim_after), "query_changed_the_network_limits", lambda: "constraint limits moved by up to %r A over %d feasibility queries" % (float(np.max(np.abs(lim_after - lim_before))), calls[0]))
@@ -365,6 +393,8 @@ def cases(draw):
         "multi": draw(st.integers(0, 2)) == 0,
         "long_horizon": draw(st.sampled_from([None, None, None, None, None, 4097, 5000, 8640])),
         "long_tail": draw(st.sampled_from([1, 12, 60])),
+        "creep": draw(st.sampled_from([None] * 7 + [12500, 20000])),
+        "reenter": {"index": draw(st.integers(0, 40)), "factor": draw(st.sampled_from([1.0, 1.0, 0.8, 0.5]))} if draw(st.integers(0, 3)) == 0 else None,
     }
 
 
@@ -413,7 +443,7 @@ def prop_structure(spec, rec):
 
 def subchecks(tier):
     return [
-        Given("frontier", cases(), prop, quick=320, thorough=30000, floors={"near_rating": 0.2, "at_rating": 0.1, "linear": 0.1, "real_evse": 0.12, "lenient_query_first": 0.1, "deprecated_alias_entry": 0.02, "two_period_schedule_equal_totals": 0.1, "huge_transformer_capacity": 0.03, "horizon_over_4096_periods": 0.04, "constraint_table_edited_by_caller": 0.1}, jobs_quick=8),
+        Given("frontier", cases(), prop, quick=320, thorough=30000, floors={"near_rating": 0.2, "at_rating": 0.1, "linear": 0.1, "real_evse": 0.12, "lenient_query_first": 0.1, "deprecated_alias_entry": 0.02, "two_period_schedule_equal_totals": 0.1, "huge_transformer_capacity": 0.03, "horizon_over_4096_periods": 0.04, "constraint_table_edited_by_caller": 0.1, "slowly_creeping_schedule": 0.08, "constraint_re_entered_after_a_query": 0.1}, jobs_quick=8),
         Exhaustive("structure", structure_items, prop_structure, jobs_quick=2),
     ]
 
